@@ -153,7 +153,10 @@ def c06_3(c: Ctx) -> None:
     inv = {id(call) for _, call in handler_invocations(c)}
     for u, call in sites:
         if call_name(call) == 'gather':
-            payloads = [a.value if isinstance(a, ast.Starred) else a for a in call.args]
+            payloads = [a for a in call.args if not isinstance(a, ast.Starred)]  # *tasks: already classified where they were created
+            if not payloads:
+                c.ok(where(u, call), 'gather(*tasks) awaits tasks classified at their creation sites')
+                continue
         else:
             payloads = call.args[:1]
         if not payloads or not all(isinstance(p, ast.Call) for p in payloads):
